@@ -2,6 +2,9 @@
 
   /venv/bin/python harness/seedtest.py confirm <patch.diff> <demo.py>
         in a scratch worktree under /tmp: pristine -> demo PASS; patched -> baseline 288 still pass, demo FAIL.
+  /venv/bin/python harness/seedtest.py detect-iso <seeded/<id>/ dir> [quick|thorough] [Cxx ...]
+        scratch worktree of /repo with the patch + a private copy of /verif under /tmp (removed afterwards): safe to run
+        several at once, never touches /verif/evidence.
   /venv/bin/python harness/seedtest.py detect <seeded/<id>/ dir> [quick|thorough] [Cxx ...]
         apply seeded/<id>/patch.diff to /repo, run ./check for the property (or the listed ones), undo the patch
         (always), print per check: exit code + VIOLATION lines.
@@ -58,6 +61,37 @@ def detect_scratch(sdir, tier, props):
     finally:
         sh(f"git -C /repo worktree remove --force {wt}")
         shutil.rmtree(wt, ignore_errors=True)
+    print(json.dumps(results, indent=1))
+    record(sdir, tier, results)
+    return 0 if all(r["rc"] == 1 and any(l.startswith("VIOLATION") for l in r["lines"]) for r in results.values()) else 1
+
+
+def detect_iso(sdir, tier, props):
+    """like detect-scratch, but the checks run from a private copy of /verif (own coq/Gen, build/, evidence/), so several
+    detections can run at once and /verif/evidence is never touched"""
+    sdir = os.path.abspath(sdir)
+    meta = json.load(open(os.path.join(sdir, "meta.json")))
+    props = props or [meta["property"]]
+    wt = f"/tmp/seeddetect_{os.getpid()}"
+    iso = f"/tmp/verifiso_{os.getpid()}"
+    rc, out = sh(f"git -C /repo worktree add --detach {wt} HEAD -q")
+    assert rc == 0, out
+    results = {}
+    try:
+        rc, out = sh(["git", "apply", os.path.join(sdir, "patch.diff")], cwd=wt)
+        assert rc == 0, out
+        rc, out = sh(["rsync", "-a", "--exclude", ".git", "--exclude", "build/cases", "--exclude", "build/io", "--exclude",
+                      "build/*.log", "--exclude", "evidence", "--exclude", "seeded", ROOT + "/", iso + "/"])
+        assert rc == 0, out
+        for pid in props:
+            t0 = time.time()
+            rc, out = sh([os.path.join(iso, "check"), pid, tier], cwd=iso, timeout=7200, env=dict(os.environ, AV_REPO=wt))
+            v = [l for l in out.splitlines() if l.startswith("VIOLATION") or l.startswith("KNOWN-FINDING")]
+            results[pid] = {"rc": rc, "lines": [l[:300] for l in v], "wall_s": round(time.time() - t0, 1)}
+    finally:
+        sh(f"git -C /repo worktree remove --force {wt}")
+        shutil.rmtree(wt, ignore_errors=True)
+        shutil.rmtree(iso, ignore_errors=True)
     print(json.dumps(results, indent=1))
     record(sdir, tier, results)
     return 0 if all(r["rc"] == 1 and any(l.startswith("VIOLATION") for l in r["lines"]) for r in results.values()) else 1
@@ -129,6 +163,9 @@ if __name__ == "__main__":
     elif sys.argv[1] == "detect-scratch":
         tier = sys.argv[3] if len(sys.argv) > 3 else "quick"
         sys.exit(detect_scratch(sys.argv[2], tier, sys.argv[4:]))
+    elif sys.argv[1] == "detect-iso":
+        tier = sys.argv[3] if len(sys.argv) > 3 else "quick"
+        sys.exit(detect_iso(sys.argv[2], tier, sys.argv[4:]))
     elif sys.argv[1] == "detect":
         tier = sys.argv[3] if len(sys.argv) > 3 else "quick"
         sys.exit(detect(sys.argv[2], tier, sys.argv[4:]))
